@@ -353,7 +353,7 @@ pub fn run(ctx: &mut Ctx) {
     ctx.rule = "cases are (generated map, integer shift k in [-10^6, 10^6]): sorted and unsorted object lines (each object carries its file index in its x coordinate; equal start times occur), breaks before / between / after objects and ending exactly at object times, timing and inherited points around object start / end times (-6, -5.125, -5, -4.875, -4, 0, +5 ms offsets to hit the leniency edge), all four modes, slider multipliers incl. the clamp edges; all times are multiples of 1/8 ms so shifting is exact. Oracle: (1) stable order by start time, (2) new combo after each break, (3) velocity = 100 x SM / (beat length x clamp(100/sv)/100) with the per-mode clamp and duration = spans x distance / velocity (REL 1e-9), (4) every object / node sample equals the line-level sample (reference grammar) completed from the sample point active 5 ms after the end / the node (reference timing model), (5) decode(shift_k(x)) equals decode(x) with all object, control-point and break times shifted by k and nothing else changed. Non-trivial = >= 1 slider, >= 1 inherited point, >= 1 break (and k != 0 for the shift relation); distinct by hash(text, k).".into();
     ctx.assumptions.push("the curve distance is taken from the implementation (C16/C17 check it); velocity is compared with REL 1e-9 and then reused for the node times so that a 1-ulp difference cannot flip a sample-point lookup".into());
     crate::props::replay_regress_generic(ctx, replay);
-    let cases = ctx.tier.pick(400_000u64, 4_000_000u64);
+    let cases = ctx.tier.pick(1_200_000u64, 8_000_000u64);
     ctx.pbt("c15-random", cases, 700, |t, st| {
         let (d, k) = gen_case(t);
         st.eval();
